@@ -22,7 +22,7 @@ SPEC = os.path.join(VERIF, "spec")
 REPO = os.environ.get("VERIF_REPO", "/repo")
 EVIDENCE_DIR = os.path.join(VERIF, "evidence")
 REPLAY_DIR = os.path.join(VERIF, "replays")
-KNOWN_FINDINGS = os.path.join(VERIF, "known_findings.json")
+KNOWN_FINDINGS = os.environ.get("VERIF_KNOWN_FINDINGS", os.path.join(VERIF, "known_findings.json"))  # override: self-test only
 TLA_JAR = "/opt/veriftools/tla/tla2tools.jar:/opt/veriftools/tla/CommunityModules-deps.jar"
 WORKERS = int(os.environ.get("VERIF_WORKERS", "16"))
 
